@@ -323,6 +323,56 @@ BAD_SETTINGS = ["duckdb, foo=1, bar=2", "hive, spark2, spark, databricks", "snow
 _cache = {}
 
 
+def zoo_statements(variant=0, per_stmt=24):
+    """A "function zoo": every Func class of sqlglot.expressions that the base dialect parses from NAME(args) (about 500), packed
+    two dozen to a SELECT. `variant` changes the literal arguments only, so that several threads (or several calls on one reused
+    generator) run the same generator methods on different data and any state they share shows up as the other one's values."""
+    key = ("zoo", variant, per_stmt)
+    if key in _cache:
+        return _cache[key]
+    import inspect
+    import logging
+
+    import sqlglot
+    from sqlglot import exp
+
+    lg = logging.getLogger("sqlglot")
+    old = lg.level
+    lg.setLevel(logging.CRITICAL)
+    calls = []
+    try:
+        for n, c in sorted(vars(exp).items()):
+            if not (inspect.isclass(c) and issubclass(c, exp.Func) and c is not exp.Func) or n.startswith("_"):
+                continue
+            try:
+                names = c.sql_names()
+            except Exception:
+                continue
+            if not names:
+                continue
+            req = [k for k, v in getattr(c, "arg_types", {}).items() if v]
+            if len(req) > 3:
+                continue
+            args = ", ".join("c%d" % i if i % 2 == 0 else str(7 + i + 100 * variant) for i in range(max(1, len(req))))
+            text = "%s(%s)" % (names[0], args)
+            try:
+                t = sqlglot.parse_one("SELECT %s FROM t" % text)
+                if t.find(c) is not None:
+                    for d_ in (None, "bigquery", "duckdb", "tsql", "clickhouse", "snowflake"):
+                        t.sql(dialect=d_)  # a call some generator cannot print at all would hide the rest of its statement
+                    calls.append(text)
+            except Exception:
+                pass
+    finally:
+        lg.setLevel(old)
+    out = []
+    for i in range(0, len(calls), per_stmt):
+        chunk = calls[i:i + per_stmt]
+        out.append("SELECT " + ", ".join("%s AS f%d" % (x, j) for j, x in enumerate(chunk)) + " FROM t WHERE c0 > %d" % (variant + 1))
+    _cache[key] = out
+    return out
+
+
 def tests_dir():
     for root in (common.sqlglot_root(), "/repo"):
         d = os.path.join(root, "tests")
